@@ -219,9 +219,7 @@ class PandasCheckBackend(BaseCheckBackend):
                     .head(self.check.n_failure_cases)["failure_cases"]
                 )
             else:
-                failure_cases = failure_cases.groupby(check_output).head(
-                    self.check.n_failure_cases
-                )
+                failure_cases = failure_cases.head(self.check.n_failure_cases)
         return failure_cases
 
     def postprocess_field(
